@@ -400,6 +400,8 @@ def rule_translate_compile_siblings(ctx: Ctx, rule: str) -> None:
 def rule_marker_handling(ctx: Ctx, rule: str) -> None:
     ctx.text(rule, 'marker handling: the (?#)→?: rewrite inside negated content and the final (?#) strip are both control-dependent on '
                    'self.capture; (?#) occurs in fragment constants only as the first thing inside a capturing parenthesis')
+    from . import seqrules
+    seqrules.rule_scan_loops(ctx, rule, which={'marker-not-spellable'})
     repo = ctx.repo
     ci = repo.func(WP, 'WcParse.clean_up_inverse')
     from .cextra import inverse_cleanup_table, _dec
@@ -495,6 +497,8 @@ def rule_escape_covers(ctx: Ctx, rule: str) -> None:
             ok, why = True, f'special only with `{before_member[d]}`, which is escaped'
         elif d in allow:
             ok, why = True, allow[d]
+        elif '[' in E and all(str(fn).endswith('_sequence') for fn, chars in D.items() if d in chars):
+            ok, why = True, 'special only inside a bracket expression, and `[` is escaped'
         else:
             ok, why = False, 'dispatched on but neither escaped nor excused'
         ctx.ob(rule, f'{WP}:escape/dispatch-char[{d}]', ok, site, 'escaped by RE_MAGIC_ESCAPE (or harmless)', why,
